@@ -82,7 +82,7 @@ Proof.
   rewrite next_label_loop by (assumption || lia). destruct (is_nil r); reflexivity.
 Qed.
 
-Lemma pres_dots_cons l r : pres_dots (l :: r) = l ++ 46%N :: pres_dots r.
+Lemma pres_dots_cons (l : label) (r : name) : pres_dots (l :: r) = l ++ 46%N :: pres_dots r.
 Proof. unfold pres_dots. cbn. rewrite <- app_assoc. reflexivity. Qed.
 Lemma is_nil_pres_dots n : plain_name n -> is_nil (pres_dots n) = is_nil n.
 Proof. destruct n as [|l n]; [reflexivity|]. intros H. cbn. destruct l; reflexivity. Qed.
@@ -99,7 +99,11 @@ Fixpoint walk_stop (visit : list N -> bool) (zs : list name) : name :=
               end
   end.
 
-Lemma present_cons_not_root l r : l <> [] -> go_list_eqb N.eqb (pres_dots (l :: r)) [46%N] = false.
+Lemma walk_stop_suffixes_cons visit (l : label) (r : name) :
+  walk_stop visit (suffixes (l :: r)) = if visit (present (l :: r)) then walk_stop visit (suffixes r) else l :: r.
+Proof. destruct r; reflexivity. Qed.
+
+Lemma present_cons_not_root (l : label) (r : name) : l <> [] -> go_list_eqb N.eqb (pres_dots (l :: r)) [46%N] = false.
 Proof.
   intro Hl. destruct (go_list_eqb N.eqb (pres_dots (l :: r)) [46%N]) eqn:E; [|reflexivity].
   apply go_bytes_eqb_eq in E. rewrite pres_dots_cons in E.
@@ -119,10 +123,7 @@ Proof.
     destruct Pl as [Hne [H46 H92]].
     cbn [go_walkFailureZones_loop1]. change (present (l :: r)) with (pres_dots (l :: r)).
     rewrite (present_cons_not_root l r Hne), orb_false_r.
-    assert (S : suffixes (l :: r) = (l :: r) :: suffixes r) by reflexivity. rewrite S.
-    assert (NE : suffixes r <> []) by (destruct r; discriminate).
-    cbn [walk_stop]. destruct (suffixes r) as [|z zs] eqn:ES; [congruence|]. rewrite <- ES.
-    change (present (l :: r)) with (pres_dots (l :: r)).
+    rewrite walk_stop_suffixes_cons. change (present (l :: r)) with (pres_dots (l :: r)).
     destruct (visit (pres_dots (l :: r))) eqn:Ev; cbn [negb]; [|reflexivity].
     (* NextLabel(zone, 0): the end of the first label *)
     rewrite pres_dots_cons.
@@ -130,7 +131,7 @@ Proof.
     cbn [app] in NL. rewrite (@go_len_nil N) in NL. rewrite NL. rewrite (is_nil_pres_dots r Pr).
     destruct r as [|l2 r2]; cbn [is_nil].
     + (* last label: zone = "." *)
-      change [46%N] with (present []) at 2. rewrite (IH lf) by (try constructor; cbn in *; lia). reflexivity.
+      change [46%N] with (present []). rewrite (IH lf) by (try constructor; cbn in *; lia). reflexivity.
     + replace (l ++ 46%N :: pres_dots (l2 :: r2)) with ((l ++ [46%N]) ++ pres_dots (l2 :: r2)) by (rewrite <- app_assoc; reflexivity).
       replace (0 + go_len l + 1) with (go_len (l ++ [46%N])) by (norm_len; lia).
       rewrite go_slice_from_app'. change (pres_dots (l2 :: r2)) with (present (l2 :: r2)).
@@ -158,4 +159,21 @@ Proof.
     assert (length (l2 :: r2) < length (pres_dots (l2 :: r2)) + 1)%nat.
     { clear. induction (l2 :: r2) as [|a b IHb]; [cbn; lia|]. rewrite pres_dots_cons, app_length. cbn [length]. lia. }
     cbn [length] in *. lia.
+Qed.
+
+(* where that is: the first ancestor the callback refuses, else the last of the
+   list (for [suffixes n]: the root) — i.e. the zones are visited in list
+   order and nothing after the first refusal is visited *)
+Lemma walk_stop_find visit : forall zs z,
+  walk_stop visit (zs ++ [z]) =
+  match find (fun x => negb (visit (present x))) zs with Some y => y | None => z end.
+Proof.
+  induction zs as [|a zs IH]; intro z; [reflexivity|].
+  cbn [app walk_stop find]. destruct (zs ++ [z]) as [|b t] eqn:E; [destruct zs; discriminate|].
+  rewrite <- E. destruct (visit (present a)); cbn [negb]; [apply IH | reflexivity].
+Qed.
+Lemma suffixes_snoc_root n : exists zs, suffixes n = zs ++ [[]].
+Proof.
+  induction n as [|l r [zs E]]; [exists []; reflexivity|].
+  exists ((l :: r) :: zs). cbn [suffixes app]. now rewrite E.
 Qed.
